@@ -777,9 +777,10 @@ func (e *Engine) runDefers(st *State, base int, kind ExitKind, ret *ast.ReturnSt
 			s3.defers = saved
 			e.runDefers(s3, base, kind, ret, at, out)
 		}
+		keep := inner.inner // the function's own tail-call return (Exit.Inner) survives its deferred calls
 		for _, o := range e.inline(inner, call, fn, callee, panicOut, nil) {
 			s3 := o.st.clone("")
-			s3.inner = nil
+			s3.inner = keep
 			s3.defers = saved
 			e.runDefers(s3, base, kind, ret, at, out)
 		}
